@@ -119,7 +119,12 @@ func propC12(c *Ctx) {
 	fOp := w.Field("dig", "Filter", "Op")
 	fArg := w.Field("dig", "Filter", "Arg")
 	fAGG := w.Field("dig", "Integration", "filterAGG")
-	fSig := w.Field("dig", "Integration", "sighash")
+	// the field that holds the event's signature hash, found by what is stored into it (see C13)
+	sigFs, _ := gateFields(w)
+	if len(sigFs) == 0 {
+		fatalf("anchor: no field of package dig holds the event's signature hash")
+	}
+	fSig := sortedVars(sigFs)[0]
 	newF := w.Fn("shovel/glf", "New")
 
 	c.Rule("R12.1", "addresses are pushed to the source only for a positive membership filter (a) and only when no other filter can accept a log independently (b)", 2)
